@@ -1807,7 +1807,14 @@ int QSexact_solver (mpq_QSdata * p_mpq,
 			break;
 		case QS_LP_INFEASIBLE:
 			y_mpf = mpf_EGlpNumAllocArray (p_mpf->qslp->nrows);
-			EGcallD(mpf_QSget_infeas_array (p_mpf, y_mpf));
+			if (mpf_QSget_infeas_array (p_mpf, y_mpf))
+			{
+				/* no certificate at this precision: as in the double stage this is
+				 * no error of the driver, the next precision is tried */
+				MESSAGE (msg_lvl, "no infeasibility certificate, continuing with next precision");
+				mpf_EGlpNumFreeArray (y_mpf);
+				goto NEXT_PRECISION;
+			}
 			y_mpq = QScopy_array_mpf_mpq (y_mpf);
 			mpf_EGlpNumFreeArray (y_mpf);
 			if (QSexact_infeasible_test (p_mpq, y_mpq))
